@@ -727,6 +727,7 @@ func search(e *env, seed uint64, n int, bins string) {
 	searchFiles(e, r, n/2)
 	searchSinf(e, r, n/10+3)
 	searchMulti(e, r, n/2)
+	searchEntry(r, n/2)
 	if bins != "" {
 		searchBins(e, r, n/10+1, bins)
 	}
